@@ -29,6 +29,8 @@ pub enum Body {
     /// answered in `n` NODES packets
     Find(u8),
     Talk,
+    /// a TALK request whose answer fills the datagram to exactly the 1280-byte limit
+    TalkMax,
 }
 
 #[derive(Clone, Debug, PartialEq, Eq, Hash)]
@@ -749,7 +751,7 @@ impl World {
                 let body = match r.body {
                     Body::Ping => v::RequestBody::Ping { enr_seq: 1 },
                     Body::Find(_) => v::RequestBody::FindNode { distances: vec![255, 256] },
-                    Body::Talk => v::RequestBody::Talk { protocol: b"p".to_vec(), request: vec![*k as u8] },
+                    Body::Talk | Body::TalkMax => v::RequestBody::Talk { protocol: b"p".to_vec(), request: vec![*k as u8] },
                 };
                 self.submitted[*k] = true;
                 self.ledger[*k].submitted_at = Some(Instant::now());
@@ -804,6 +806,8 @@ impl World {
                             (0..n).map(|_| v::ResponseBody::Nodes { total: n, nodes: vec![] }).collect()
                         }
                     }
+                    // 16 IV + 23 static header + 32 auth-data + (1 type + 3 list + 3 id + 3 + n) + 16 tag = 1280
+                    (v::RequestBody::Talk { .. }, Some(Body::TalkMax)) => vec![v::ResponseBody::Talk { response: vec![0x5a; 1183] }],
                     (v::RequestBody::Talk { .. }, _) => vec![v::ResponseBody::Talk { response: vec![1] }],
                 };
                 if let Some(l) = self.last_responded.as_mut() {
@@ -1032,6 +1036,18 @@ impl World {
 
         // capacity victim by harness-side recency (before this step's receipts are applied)
         let use_before = self.last_use.clone();
+        // establishing a session is a use of it (its first datagram may be unreadable to the harness
+        // at the time: the keys only become known with this snapshot)
+        for (i, s) in post.iter().enumerate() {
+            if let Some(s) = s {
+                for sess in &s.sessions {
+                    let was = pre[i].as_ref().map(|p| p.sessions.iter().any(|x| x.addr == sess.addr && x.encryption_key == sess.encryption_key)).unwrap_or(false);
+                    if !was {
+                        self.last_use.entry((i, sess.encryption_key)).or_insert(now);
+                    }
+                }
+            }
+        }
         for (i, key) in std::mem::take(&mut self.last_use_pending) {
             self.last_use.insert((i, key), now);
         }
@@ -1086,6 +1102,21 @@ impl World {
                     }
                 }
             }
+            // a request is only ever delivered under a session; that session is still there when
+            // the step ends (otherwise the application's answer could not be sent)
+            for i in 0..self.nodes.len() {
+                if let Some(q) = &post[i] {
+                    for raw in self.last_raw[i].clone() {
+                        if let HandlerOut::Request(a, _) = raw {
+                            if !q.sessions.iter().any(|s| s.addr == a) {
+                                let detail = format!("node {i} handed a request from {} to its application but holds no session with it afterwards ({:?})", a.socket_addr, ev);
+                                self.violate("C20", "each delivered request leads to exactly one response to the node address it came from", "request-delivered-session-dropped", detail.clone());
+                                self.violate("C14", "every request is answered", "request-delivered-session-dropped", detail);
+                            }
+                        }
+                    }
+                }
+            }
             if let Some((i, addr, id, count)) = responded {
                 let had_session = pre[i].as_ref().map(|p| p.sessions.iter().any(|s| s.addr == addr)).unwrap_or(false);
                 if had_session {
@@ -1093,6 +1124,9 @@ impl World {
                     let sent = self.log[self.log_mark..].iter().filter(|d| d.src == me && d.dst == addr.socket_addr && matches!(self.read(d).0, Plain::Response(ref rid, _) if *rid == id)).count();
                     if sent >= count && count > 0 {
                         self.count("responses_put_on_the_wire");
+                        if self.log[self.log_mark..].iter().any(|d| d.src == me && d.bytes.len() == 1280) {
+                            self.count("responses_of_exactly_1280_bytes");
+                        }
                         if count > 30 {
                             self.count("response_bursts_above_30_datagrams");
                         }
